@@ -113,11 +113,12 @@ STAGES = {
 
 # which certificate fields gate which property (ClosedChecker / NfaSem checkers, proved sound)
 CERT_PROPS = {
-    "C01": {"sound", "closed", "targets", "nranges", "dranges"},
-    "C02": {"closed", "targets", "nranges", "dranges"},
-    "C04": {"closed", "targets", "nranges", "dranges"},
-    "C05": {"closed"},
-    "C12": {"sound", "closed", "targets", "nranges", "dranges"},
+    "C01": {"sound", "closed", "shape", "targets", "nranges", "dranges"},
+    "C02": {"closed", "shape", "targets", "nranges", "dranges"},
+    "C03": {"shape"},
+    "C04": {"closed", "shape", "targets", "nranges", "dranges"},
+    "C05": {"closed", "shape"},
+    "C12": {"sound", "closed", "shape", "targets", "nranges", "dranges"},
 }
 
 
@@ -151,10 +152,14 @@ def lexer_check(ctx, gen_opts, ndefs, ninputs, projs, ctors=(0,), clone=False, n
         cases.append(Case(len(cases), d, inputs))
     ncorpus = len(cases)
     while len(cases) < ncorpus + ndefs:
-        d = gen.definition()
-        if require and not require(d):
-            continue
-        ins = gen.inputs(d, ninputs, max_len=max_len, ctors=ctors)
+        if not require and gen.rng.random() < gen.o['p_template']:
+            d = gen.template_definition()
+            ins = gen.template_inputs(ninputs + 10, ctors=ctors)
+        else:
+            d = gen.definition()
+            if require and not require(d):
+                continue
+            ins = gen.inputs(d, ninputs, max_len=max_len, ctors=ctors)
         inputs = []
         for ct, cps in ins:
             cl = gen.rng.randrange(0, len(cps) + 3) if clone else None
@@ -197,12 +202,16 @@ def lexer_check(ctx, gen_opts, ndefs, ninputs, projs, ctors=(0,), clone=False, n
     for c in usable:
         if c.compile_error is not None:
             dist["compile_errors"] += 1
-            if prop == "C12":
+            if prop == "C12" or c.idx < ncorpus or compile_error_relevant(prop, c.d):
+                # C12 owns "output compiles"; other properties report it only where the definition exercises
+                # exactly their feature (corpus entry of the property, context for C04, class algebra for C11 ...)
                 ctx.violation("compile-error", dict(describe(c), rustc=c.compile_error[-1500:]))
             continue
         if c.impl is None:
             ctx.broken("dump-missing", "no dump for %s" % c.name, describe(c))
             continue
+        if c.model.get("modelcerts") is False and prop in CERT_PROPS:
+            ctx.broken("model-certificate", "certs_ok_b fails on the model's own automata (hypothesis of lexer_correct)", describe(c))
         art = compare_artifacts(c.impl, c.model, stages) if stages else {}
         stream_viol = False
         for i, (ct, cps, cl) in enumerate(c.inputs):
@@ -285,6 +294,26 @@ def lexer_check(ctx, gen_opts, ndefs, ninputs, projs, ctors=(0,), clone=False, n
     return usable
 
 
+def regex_has(r, kinds):
+    if r is None:
+        return False
+    if r[0] in kinds:
+        return True
+    return any(regex_has(x, kinds) for x in r[1:] if isinstance(x, tuple))
+
+
+def compile_error_relevant(prop, d):
+    rules = [r for _, r in lexdef.iter_rules(d)]
+    lets = [t[2] for t in d if t[0] == 'let'] + [i[2] for t in d if t[0] == 'ruleset' for i in t[2] if i[0] == 'let']
+    if prop == "C04":
+        return any(r['ctx'] is not None for r in rules)
+    if prop == "C11":
+        return any(regex_has(r['re'], ('diff',)) or regex_has(r['ctx'], ('diff',)) for r in rules) or any(regex_has(l, ('diff',)) for l in lets)
+    if prop == "C13":
+        return any(regex_has(r['re'], ('builtin',)) or regex_has(r['ctx'], ('builtin',)) for r in rules)
+    return False
+
+
 def untuple(x):
     """JSON lists back to the tuple/list structure of lexdef"""
     if isinstance(x, list):
@@ -331,57 +360,57 @@ def sizes(ctx, quick, thorough):
 
 
 def check_C01(ctx):
-    nd, ni = sizes(ctx, (40, 14), (400, 30))
+    nd, ni = sizes(ctx, (120, 22), (1200, 40))
     lexer_check(ctx, dict(p_ctx=0.15, max_rules=5, max_depth=3, kinds=['simple', 'simple', 'inf:ret', 'skip']),
                 nd, ni, ["tokens"])
 
 
 def check_C02(ctx):
-    nd, ni = sizes(ctx, (40, 14), (400, 30))
+    nd, ni = sizes(ctx, (120, 22), (1200, 40))
     lexer_check(ctx, dict(p_ctx=0.0, p_named=0.0, max_rules=2, max_depth=4, p_builtin=0.1, p_diff=0.12, p_any=0.12,
                           p_eoi=0.05, kinds=['simple']), nd, ni, ["tokens"])
 
 
 def check_C03(ctx):
-    nd, ni = sizes(ctx, (36, 14), (300, 30))
+    nd, ni = sizes(ctx, (108, 22), (900, 40))
     lexer_check(ctx, dict(p_named=1.0, max_rulesets=5, max_rules=3, max_depth=2, p_alt=0.3,
                           kinds=['inf:sw', 'inf:swret', 'inf:rsw', 'simple', 'inf:ret', 'inf:cont', 'skip']),
                 nd, ni, ["full"])
 
 
 def check_C04(ctx):
-    nd, ni = sizes(ctx, (36, 14), (300, 30))
+    nd, ni = sizes(ctx, (108, 22), (900, 40))
     lexer_check(ctx, dict(p_ctx=0.7, max_rules=4, max_depth=2, kinds=['simple', 'inf:ret']), nd, ni, ["full"],
                 require=lambda d: any(r['ctx'] for _, r in lexdef.iter_rules(d)))
 
 
 def check_C05(ctx):
-    nd, ni = sizes(ctx, (36, 16), (300, 30))
+    nd, ni = sizes(ctx, (108, 24), (900, 40))
     lexer_check(ctx, dict(p_eoi=0.45, p_named=0.7, max_rules=3, max_depth=2), nd, ni, ["full"], max_len=6)
 
 
 def check_C06(ctx):
-    nd, ni = sizes(ctx, (30, 16), (250, 30))
+    nd, ni = sizes(ctx, (90, 24), (750, 40))
     lexer_check(ctx, dict(wide=True, p_wide_char=0.25, p_any=0.2, max_rules=4, max_depth=2), nd, ni, ["full"],
                 loc_check=True)
 
 
 def check_C07(ctx):
-    nd, ni = sizes(ctx, (36, 14), (300, 30))
+    nd, ni = sizes(ctx, (108, 22), (900, 40))
     lexer_check(ctx, dict(p_fallible=0.8, max_rules=4, max_depth=2,
                           kinds=['fal:err', 'fal:ret', 'fal:cont', 'simple', 'inf:cont', 'inf:ret']), nd, ni,
                 ["errors"])
 
 
 def check_C08(ctx):
-    nd, ni = sizes(ctx, (36, 14), (300, 30))
+    nd, ni = sizes(ctx, (108, 22), (900, 40))
     lexer_check(ctx, dict(p_named=1.0, max_rulesets=4, max_rules=3, max_depth=2,
                           kinds=['inf:sw', 'inf:swret', 'simple', 'simple', 'inf:ret', 'inf:cont', 'skip']),
                 nd, ni, ["after_error"])
 
 
 def check_C09(ctx):
-    nd, ni = sizes(ctx, (30, 14), (250, 30))
+    nd, ni = sizes(ctx, (90, 22), (750, 40))
 
     def extra(ctx, c, i, I, S, M):
         n = len(c.inputs[i][1])
@@ -392,6 +421,18 @@ def check_C09(ctx):
             ctx.violation("no-panic-no-hang", dict(describe(c, i), observed=I))
         elif len(items) > n + 1 or len(acts) > n + 1:
             ctx.violation("progress", dict(describe(c, i), observed=I, items=len(items), actions=len(acts), n=n))
+        else:
+            # every item accounts for input of its own: items never go back before the end of an earlier one
+            pos = 0
+            for l in items:
+                p = l.split()
+                st = int(p[2]) if p[0] in ("T", "EC") else int(p[1])
+                en = int(p[5]) if p[0] == "T" else st
+                if st < pos:
+                    ctx.violation("progress", dict(describe(c, i), observed=I,
+                                                   problem="item at byte %d starts before byte %d reached by an earlier item" % (st, pos)))
+                    break
+                pos = max(pos, en)
     usable = lexer_check(ctx, dict(max_rules=4, max_depth=3, p_any=0.15), nd, ni, ["counts"], extra=extra)
     # release build too (overflow checks off / optimised code)
     if ctx.tier == "thorough":
@@ -400,18 +441,18 @@ def check_C09(ctx):
 
 
 def check_C10(ctx):
-    nd, ni = sizes(ctx, (36, 14), (300, 30))
+    nd, ni = sizes(ctx, (108, 22), (900, 40))
     lexer_check(ctx, dict(p_fallible=0.5, p_alt=0.35, max_rules=4, max_depth=2), nd, ni, ["full"], loc_check=True)
 
 
 def check_C12(ctx):
-    nd, ni = sizes(ctx, (40, 4), (400, 6))
+    nd, ni = sizes(ctx, (120, 12), (1200, 16))
     lexer_check(ctx, dict(p_ctx=0.35, p_builtin=0.15, max_rules=6, max_depth=3, max_rulesets=4), nd, ni, ["counts"])
     check_determinism(ctx)
 
 
 def check_C14(ctx):
-    nd, ni = sizes(ctx, (24, 6), (200, 12))
+    nd, ni = sizes(ctx, (72, 14), (600, 22))
 
     def four(ctx, gen_opts):
         gen = lexdef.Gen(ctx.seed, **gen_opts)
@@ -422,7 +463,7 @@ def check_C14(ctx):
 
 
 def check_C15(ctx):
-    nd, ni = sizes(ctx, (30, 12), (250, 30))
+    nd, ni = sizes(ctx, (90, 20), (750, 40))
     lexer_check(ctx, dict(max_rules=4, max_depth=2, p_named=0.6, p_fallible=0.4), nd, ni, ["full"], clone=True)
 
 
